@@ -12,7 +12,7 @@ args = sys.argv[1:]
 tier = args[args.index("--tier") + 1] if "--tier" in args else "quick"
 only = [a for a in args[args.index("--only") + 1:] if not a.startswith("--")] if "--only" in args else None
 checks = args[args.index("--checks") + 1].split(",") if "--checks" in args else [f"C{i:02d}" for i in range(1, 20)]
-root = "/verif/benign"
+root = "/verif/" + (args[args.index("--root") + 1] if "--root" in args else "benign")
 names = sorted(n for n in os.listdir(root) if os.path.isdir(os.path.join(root, n)))
 if only: names = [n for n in names if n in only]
 respath = os.path.join(root, "RESULTS.json")
